@@ -1370,8 +1370,13 @@ func runR71(c *Ctx) {
 			for _, li := range loopsOf(fn) {
 				boundByNulls := false
 				for _, in := range li.header.Instrs {
-					if b, ok := in.(*ssa.BinOp); ok && (b.Op == token.LSS || b.Op == token.LEQ || b.Op == token.GTR || b.Op == token.NEQ) {
-						if fieldNameOfLoad(b.Y) == "nulls" || fieldNameOfLoad(b.X) == "nulls" {
+					if b, ok := in.(*ssa.BinOp); ok {
+						// `i < nulls` (count up), or `nulls > 0` / `nulls != 0` (count the field itself down)
+						k, isK := constInt(b.Y)
+						switch {
+						case b.Op == token.LSS && fieldNameOfLoad(b.Y) == "nulls":
+							boundByNulls = true
+						case (b.Op == token.GTR || b.Op == token.NEQ) && fieldNameOfLoad(b.X) == "nulls" && isK && k == 0:
 							boundByNulls = true
 						}
 					}
@@ -1558,7 +1563,7 @@ func runR71(c *Ctx) {
 // ---- R68: an apply kernel returns its source column only when that column is physically empty ----
 
 func init() {
-	register(&Rule{ID: "R68", Name: "APPLY-NOT-SOURCE", Floor: 7,
+	register(&Rule{ID: "R68", Name: "APPLY-NOT-SOURCE", Floor: 5,
 		Text: "in the column packages, a function that takes a row index (index.Int) and produces a column value (Apply1, Apply2 and the built-in apply functions stored in the per-type function tables) returns its own source column (receiver or Column parameter) only under a dominating guard that the column's physical storage is empty (len(storage) == 0): for any other input, and in particular for an empty row selection over a non-empty column (FilteredApply matching nothing), the result is a new column sized by the storage whose unselected rows are zero/null, not a copy of the source",
 		Run:  runR68})
 }
@@ -1779,7 +1784,7 @@ func runR72(c *Ctx) {
 // ---- R73: the null flag of a string cell comes from the nilness of the source pointer ----
 
 func init() {
-	register(&Rule{ID: "R73", Name: "NULL-FLAG-SOURCE", Floor: 8,
+	register(&Rule{ID: "R73", Name: "NULL-FLAG-SOURCE", Floor: 5,
 		Text: "at every call of strings.NewPointer(offset, len, isNull) the null flag is (a) the null flag of an existing cell (second result of stringAt/bytesAt, Pointer.IsNull()), or (b) the constant true under a dominating guard that the source *string is nil (or, in the CSV reader, that the field is empty and EmptyNull is set), or (c) the constant false - where the function has *string sources only under a dominating guard that the source pointer is not nil -, or (d) literally `ptr == nil` for the *string source. A flag computed from anything else (the length or nilness of a byte buffer) makes the empty string null or a null an empty string",
 		Run:  runR73})
 }
@@ -2197,105 +2202,6 @@ func runR76(c *Ctx) {
 				return true
 			})
 		}
-	}
-}
-
-// ---- R78: arguments are not passed in each other's places ----
-
-func init() {
-	register(&Rule{ID: "R78", Name: "ARG-SWAP", Floor: 10,
-		Text: "at every call of a module function or interface method, for every pair of parameters of identical type: if the two arguments are named values (a field, a parameter, a local variable) and each argument's name equals the *other* parameter's name (case-insensitive), the arguments are swapped (Comparable(o.NullLast, false, o.Reverse) against Comparable(reverse, equalNull, nullLast)). Calls where an argument's name equals its own parameter's name are counted as confirmed wirings",
-		Run:  runR78})
-}
-
-func valueName(v ssa.Value) string {
-	switch t := v.(type) {
-	case *ssa.Parameter:
-		return t.Name()
-	case *ssa.UnOp:
-		if t.Op == token.MUL {
-			if fa, ok := t.X.(*ssa.FieldAddr); ok {
-				return fieldNameAt(fa)
-			}
-			if al, ok := t.X.(*ssa.Alloc); ok {
-				return al.Comment
-			}
-		}
-	case *ssa.Field:
-		if st, ok := t.X.Type().Underlying().(*types.Struct); ok {
-			return st.Field(t.Field).Name()
-		}
-	case *ssa.Phi:
-		return t.Comment
-	case *ssa.Convert:
-		return valueName(t.X)
-	case *ssa.ChangeType:
-		return valueName(t.X)
-	}
-	return ""
-}
-
-func runR78(c *Ctx) {
-	p := c.P
-	for _, fn := range p.Funcs {
-		fnm := fname(fn)
-		eachInstr(fn, func(in ssa.Instruction) {
-			ci, ok := in.(ssa.CallInstruction)
-			if !ok || builtinName(ci) != "" {
-				return
-			}
-			cc := ci.Common()
-			var sig *types.Signature
-			var calleeName string
-			args := cc.Args
-			if cc.IsInvoke() {
-				if cc.Method.Pkg() == nil || !inModule(cc.Method.Pkg()) {
-					return
-				}
-				sig = cc.Method.Type().(*types.Signature)
-				calleeName = cc.Method.Name()
-			} else if callee := cc.StaticCallee(); callee != nil && callee.Pkg != nil && inModule(callee.Pkg.Pkg) {
-				sig = callee.Signature
-				calleeName = fname(callee)
-				if sig.Recv() != nil && len(args) > 0 {
-					args = args[1:]
-				}
-			} else {
-				return
-			}
-			n := sig.Params().Len()
-			if sig.Variadic() {
-				n--
-			}
-			if n < 2 || len(args) < n {
-				return
-			}
-			confirmed := 0
-			for i := 0; i < n; i++ {
-				pi := sig.Params().At(i)
-				ai := strings.ToLower(valueName(args[i]))
-				if ai != "" && ai == strings.ToLower(pi.Name()) {
-					confirmed++
-				}
-				for j := i + 1; j < n; j++ {
-					pj := sig.Params().At(j)
-					if !types.Identical(pi.Type(), pj.Type()) || pi.Name() == "" || pj.Name() == "" || pi.Name() == "_" {
-						continue
-					}
-					aj := strings.ToLower(valueName(args[j]))
-					if ai == "" || aj == "" || ai == aj {
-						continue
-					}
-					if ai == strings.ToLower(pj.Name()) && aj == strings.ToLower(pi.Name()) {
-						c.bad(fnm+"|call of "+calleeName, p.instrPos(in), fmt.Sprintf("argument %d is `%s` and argument %d is `%s`, but the parameters are (%s, %s) in that order: the arguments are passed in each other's places", i+1, valueName(args[i]), j+1, valueName(args[j]), pi.Name(), pj.Name()))
-						return
-					}
-				}
-			}
-			if confirmed > 0 {
-				c.okTrivial(fnm+"|call of "+calleeName, p.instrPos(in), fmt.Sprintf("%d argument(s) carry the name of their own parameter", confirmed))
-			}
-		})
 	}
 }
 
